@@ -84,13 +84,15 @@ CLAIMED = {
    note="Trusted: field prelude (symengine's exact add/sub/mul/div implement a field; an identity of rational functions over Q holds over GF(p) where no division by zero occurs), vec_basic stub, extraction rules, CBMC.",
    tech="contract-based verification with CBMC on mechanically extracted function text: pre/postcondition harness over a finite-field abstraction of the exact numbers; bounded model checking (grid size, field, unwinding assertions) — bounded stand-in"),
  "C34": dict(cat="proof", design="§4 C34",
-   text="Contract proof (CBMC, loop-free, full domain) on the real text of tribool.h (Kleene and/or/not/andwk/orwk, conversions: soundness of every combination "
-        "of sound answers) and of the Number/Constant/Infty/NaN rules of the Zero/Positive/Negative/NonPositive/NonNegative/Real/Complex/Rational/Integer/Finite "
-        "visitors in test_visitors.cpp/.h against the ghost-number contracts: every definite answer is true of the operand's value for every number kind "
-        "(integer, rational, double, complex, +-oo, zoo, nan) and the five named constants. Add/Mul/Pow combination rules, Assumptions::is_* and the "
-        "function-specific rules are not under contract.",
-   note="Trusted: ghost-number prelude, hand-written visitor dispatch table, mathematical facts about pi/E/EulerGamma/Catalan/GoldenRatio, extraction rules, CBMC.",
-   tech="contract-based deductive verification with CBMC on mechanically extracted function text (route F: loop-free, full domain of the ghost model)"),
+   text="(1) PROVED (CBMC, loop-free, full domain) on the real text of tribool.h (Kleene and/or/not/andwk/orwk, conversions: every combination of sound answers is sound) and of the "
+        "Number/Constant/Infty/NaN rules of the Zero/Positive/Negative/NonPositive/NonNegative/Real/Complex/Rational/Integer/Finite visitors against the ghost-number contracts: every "
+        "definite answer is true of the operand's value for every number kind and the five named constants. (2) BOUNDED stand-in, not counted as proved: the combination rules "
+        "RealVisitor::bvisit(Add), RealVisitor::bvisit(Mul), PositiveVisitor::bvisit(Add) are checked against the CONTRACT of the recursive call (any sound answer about a child's ghost "
+        "complex value) for at most 2 terms/factors with small integer parts: a definite answer is true of the sum/product. Two unsound 'not real' rules are recorded as known findings "
+        "(C34_REAL_TIMES_POSSIBLY_ZERO, C34_REAL_SUM_OF_NONREAL_TERMS) and the obligations are discharged on the complement of those input classes. Assumptions::is_*, the other visitors' "
+        "Add/Mul/Pow rules and function-specific rules are not under contract.",
+   note="Trusted: ghost-number prelude, hand-written visitor dispatch table, mathematical facts about pi/E/EulerGamma/Catalan/GoldenRatio, recursive-call contract, extraction rules, CBMC.",
+   tech="contract-based deductive verification with CBMC on mechanically extracted function text (route F: loop-free, full domain of the ghost model); combination rules as callers checked against the callee contract of the recursive visitor call (bounded number of children)"),
  "C29": dict(cat="proof", design="§4 C29",
    text="Contract proof (CBMC, loop-free) on the real text of Eq/Ne/Le/Ge/Lt/Gt from logic.cpp against assumed contracts of Number::sub, is_negative, "
         "is_zero and eq: for all pairs of real numbers of any kind (integer, rational, double, +-oo) the four order relations are true exactly when "
